@@ -1,6 +1,6 @@
 (* C08: what an accepted validation establishes (validator_ok, validator_tr). *)
 From Coq Require Import List Bool NArith ZArith Lia Permutation.
-From Verif Require Import PolicyVal PolicyValProofs PolicyValWorlds.
+From Verif Require Import PolicyVal PolicyValProofs PolicyValWorlds PolicyValStruct.
 Import ListNotations.
 Local Open Scope N_scope.
 
@@ -134,7 +134,7 @@ Proof.
   apply all_hold_cons in H as [Eq H]. apply all_hold_cons in H as [_ H].
   apply ms_clauses_ok in H.
   assert (A : forall W, evalc W pol = evals W (lift_ms m)).
-  { intro W. rewrite <- lift_c_eval. apply equivb_ok. exact Eq. }
+  { intro W. rewrite <- lift_c_eval. apply equiv_dec_sound. exact Eq. }
   split; [exact A|]. split; [|exact H].
   intros W HW. rewrite A in HW. destruct (mf_sem_signed _ _ _ _ H W HW) as (k & _ & Hk). eauto.
 Qed.
@@ -148,7 +148,7 @@ Proof.
   unfold validate_descriptor, clauses. intro H.
   apply all_hold_cons in H as [Eq H]. apply all_hold_cons in H as [Eb H].
   apply ms_clauses_ok in H. split; [|split; [|exact H]].
-  - intro W. rewrite <- lift_c_eval. apply equivb_ok. exact Eq.
+  - intro W. rewrite <- lift_c_eval. apply equiv_dec_sound. exact Eq.
   - intros ->. exact Eb.
 Qed.
 
@@ -300,8 +300,8 @@ Proof.
   apply flat_clauses_ok in H.
   apply andb_true_iff in Ek as [Ek1 Ek2].
   split; [|split; [|split; [|split; [|split]]]].
-  - intro W. rewrite <- lift_c_eval. rewrite (proj1 (equivb_ok _ _) Eq W).
-    unfold tr_policy. rewrite thresh_one. cbn [existsb]. rewrite existsb_map_comp. destruct inpol; reflexivity.
+  - intro W. rewrite <- lift_c_eval. rewrite (equiv_dec_sound _ _ Eq W).
+    unfold tr_policy. rewrite thresh_one, existsb_app, existsb_map_comp. destruct inpol; cbn [existsb andb orb]; [rewrite orb_false_r|]; reflexivity.
   - intros ->. cbn in Ek2. apply negb_true_iff in Ek2. split; intro Hin.
     + assert (memb N.eqb ik (keys_s (lift_c pol) ++ flat_map ms_keys leaves) = true) as C
         by (apply (memb_In N.eqb N.eqb_eq); apply in_or_app; auto). congruence.
